@@ -29,7 +29,7 @@ theorem lower_append (a b : List Char) : lower (a ++ b) = lower a ++ lower b := 
   simp [lower]
 
 theorem lower_dot_cons (s : List Char) : lower ('.' :: s) = '.' :: lower s := by
-  simp [lower]; decide
+  simp [lower]
 
 theorem dot_not_mem_lower {s : List Char} (h : '.' ∉ s) : '.' ∉ lower s := by
   intro hm
@@ -87,7 +87,8 @@ theorem sliceTo_split (p s : List Char) : sliceTo (p ++ '.' :: s) p.length = som
 theorem sliceFrom_split (p s : List Char) : sliceFrom (p ++ '.' :: s) ((p.length : Int) + 1) = some s := by
   have h1 : (0 : Int) ≤ (p.length : Int) + 1 := by omega
   have h3 : ((p.length : Int) + 1).toNat = p.length + 1 := by omega
-  simp [sliceFrom, h1, h3]
+  have h4 : (1 : Int) ≤ (s.length : Int) + 1 := by omega
+  simp [sliceFrom, h1, h3, h4]
 
 theorem sliceTo_isSome_of_present {l : List Char} (h : '.' ∈ l) : (sliceTo l (lastIndexDot l)).isSome = true := by
   have h0 := lastIndexDot_present h
@@ -109,13 +110,425 @@ theorem deriveNames_runtime (ov : Option (List Char)) (g : GoName) (h : g.WellFo
         some ⟨hyphenate (lower g.simple), lower g.qual,
               lower g.qual ++ '[' :: hyphenate (lower g.simple) ++ [']']⟩
       | some o =>
-        match sliceTo (lower g.qual) (lastIndexDot (lower g.qual)) with
-        | none => none
-        | some p => some ⟨o, lower g.qual, p ++ '[' :: o ++ [']']⟩ := by
+        if 0 ≤ lastIndexDot (lower g.qual) then
+          match sliceTo (lower g.qual) (lastIndexDot (lower g.qual)) with
+          | none => none
+          | some p => some ⟨o, lower g.qual, p ++ '[' :: o ++ [']']⟩
+        else some ⟨o, lower g.qual, lower g.qual ++ '[' :: o ++ [']']⟩ := by
   have hs : '.' ∉ lower g.simple := dot_not_mem_lower h
-  have hlen : (lower g.qual).length = (lower g.qual).length := rfl
   unfold deriveNames
   simp only [lower_runtime, lastIndexDot_split _ _ hs, sliceTo_split, sliceFrom_split]
   cases ov <;> rfl
+
+/-! ### registration -/
+
+theorem register_ok {ov : Option (List Char)} {rt : List Char} {σ : Sig} {decl : List Int} {reg : Reg}
+    (h : register ov rt σ decl = .ok reg) :
+    reg.sig = σ ∧ selectBounds σ decl = .ok (reg.minArgs, reg.maxArgs) ∧ σ.results ≤ 2 ∧
+      deriveNames ov rt = some reg.names := by
+  unfold register at h
+  split at h
+  · cases h
+  · next names hn =>
+    split at h
+    · cases h
+    · next mn mx hb =>
+      split at h
+      · cases h
+      · next hr =>
+        cases h
+        exact ⟨rfl, hb, by omega, hn⟩
+
+/-- the bounds `call()` stores for a valid declaration -/
+theorem selectBounds_valid {σ : Sig} {decl : List Int} (hv : ValidDecl σ decl) :
+    selectBounds σ decl = .ok
+      (match decl with
+       | [a] => (a, 1000)
+       | [a, b] => (a, b)
+       | _ => if σ.variadic.isSome then (0, 1000) else ((σ.fixed.length : Int), (σ.fixed.length : Int))) := by
+  rcases decl with _ | ⟨a, _ | ⟨b, _ | ⟨c, r⟩⟩⟩
+  · cases hvar : σ.variadic <;> cases hc : σ.ctx <;>
+      simp [selectBounds, selectRaw, Sig.isVariadic, Sig.numIn, hvar, hc, unlimitedArgments]
+    have h1 : (1 : Int) + (σ.fixed.length : Int) - 1 = σ.fixed.length := by omega
+    have h2 : ¬ ((σ.fixed.length : Int) < 0) := by omega
+    rw [h1, if_neg h2]
+  · simp [ValidDecl, validDecl, unlimited] at hv
+    obtain ⟨_, ⟨hvar, h0⟩, h1⟩ := hv
+    have h1 := of_decide_eq_true h1
+    simp only [selectBounds, selectRaw, Sig.isVariadic, hvar, unlimitedArgments]
+    have h2 : ¬ (a > 1000) := by omega
+    simp [h2, h0]
+  · simp [ValidDecl, validDecl] at hv
+    obtain ⟨_, ⟨hvar, h0⟩, h1⟩ := hv
+    simp only [selectBounds, selectRaw, Sig.isVariadic, hvar]
+    have h2 : ¬ (a > b) := by omega
+    have h3 : ¬ (a < 0 ∨ b < 0) := by omega
+    simp [h2, h3]
+  · simp [ValidDecl, validDecl] at hv
+
+/-! ### reflect's checks = "every argument is assignable to its parameter" -/
+
+theorem assignable_eq (v : Val) (p : PKind) : assignable v p = assignableTo v p := by
+  cases p with
+  | iface => rfl
+  | typed t => cases v <;> simp [assignable, assignableTo, isNil]
+
+/-- `reflect.Value.Call`'s checks with the context parameter subtracted on both sides -/
+def reflectCheck' (fixed : List PKind) (variadic : Option PKind) (args : List Val) : Option ReflectPanic :=
+  if args.length < fixed.length then some .tooFew
+  else if variadic.isNone && decide (args.length > fixed.length) then some .tooMany
+  else
+    match checkFixed fixed args with
+    | some p => some p
+    | none =>
+      match variadic with
+      | some elem => checkVariadic elem (args.drop fixed.length)
+      | none => none
+
+theorem reflectCheck_eq (σ : Sig) (args : List Val) :
+    reflectCheck σ args = reflectCheck' σ.fixed σ.variadic args := by
+  unfold reflectCheck reflectCheck' Sig.numIn Sig.isVariadic
+  cases hc : σ.ctx <;> cases hv : σ.variadic <;> simp <;> rfl
+
+theorem checkVariadic_none (e : PKind) (as : List Val) :
+    checkVariadic e as = none ↔ as.all (assignable · e) = true := by
+  induction as with
+  | nil => simp [checkVariadic]
+  | cons a r ih =>
+    simp only [checkVariadic, List.all_cons, Bool.and_eq_true, assignable_eq]
+    cases h : assignableTo a e
+    · simp
+    · simpa [assignable_eq] using ih
+
+theorem reflectCheck'_cons_ok {p : PKind} {a : Val} (h : assignableTo a p = true) (ps : List PKind)
+    (v : Option PKind) (as : List Val) :
+    reflectCheck' (p :: ps) v (a :: as) = reflectCheck' ps v as := by
+  simp [reflectCheck', checkFixed, h]
+
+theorem reflectCheck'_cons_bad {p : PKind} {a : Val} (h : assignableTo a p = false) (ps : List PKind)
+    (v : Option PKind) (as : List Val) :
+    reflectCheck' (p :: ps) v (a :: as) ≠ none := by
+  simp only [reflectCheck', checkFixed, h]
+  split
+  · simp
+  · split <;> simp
+
+theorem reflectCheck'_none (fixed : List PKind) (v : Option PKind) (args : List Val) :
+    reflectCheck' fixed v args = none ↔ argsFit fixed v args = true := by
+  induction fixed generalizing args with
+  | nil =>
+    cases v with
+    | none => cases args <;> simp [reflectCheck', checkFixed, argsFit]
+    | some e =>
+      have := checkVariadic_none e args
+      cases args <;> simpa [reflectCheck', checkFixed, argsFit] using this
+  | cons p ps ih =>
+    cases args with
+    | nil => simp [reflectCheck', argsFit]
+    | cons a as =>
+      cases h : assignableTo a p
+      · have := reflectCheck'_cons_bad h ps v as
+        simp [argsFit, assignable_eq, h, this]
+      · rw [reflectCheck'_cons_ok h]
+        simp [argsFit, assignable_eq, h, ih]
+
+theorem reflectCheck_none (σ : Sig) (args : List Val) :
+    reflectCheck σ args = none ↔ argsFit σ.fixed σ.variadic args = true := by
+  rw [reflectCheck_eq, reflectCheck'_none]
+
+theorem argsFit_length {fixed : List PKind} {v : Option PKind} {as : List Val}
+    (h : argsFit fixed v as = true) : fixed.length ≤ as.length ∧ (v = none → as.length = fixed.length) := by
+  induction fixed generalizing as with
+  | nil =>
+    cases v with
+    | none => cases as <;> simp_all [argsFit]
+    | some e => simp
+  | cons p ps ih =>
+    cases as with
+    | nil => simp [argsFit] at h
+    | cons a r =>
+      simp only [argsFit, Bool.and_eq_true] at h
+      have := ih h.2
+      simp only [List.length_cons]
+      exact ⟨by omega, fun hv => by have := this.2 hv; omega⟩
+
+theorem argsFit_arityFit {σ : Sig} {as : List Val} (h : argsFit σ.fixed σ.variadic as = true) :
+    arityFit σ as.length = true := by
+  have := argsFit_length h
+  cases hv : σ.variadic
+  · simp [arityFit, hv, this.2 hv]
+  · simp [arityFit, hv, this.1]
+
+/-- which kind of panic reflect raises -/
+theorem checkFixed_isType {ps : List PKind} {as : List Val} {p : ReflectPanic}
+    (h : checkFixed ps as = some p) : p.isCount = false := by
+  induction ps generalizing as with
+  | nil => simp [checkFixed] at h
+  | cons q qs ih =>
+    cases as with
+    | nil => simp [checkFixed] at h
+    | cons a r =>
+      simp only [checkFixed] at h
+      split at h
+      · exact ih h
+      · cases h; rfl
+
+theorem checkVariadic_isType {e : PKind} {as : List Val} {p : ReflectPanic}
+    (h : checkVariadic e as = some p) : p.isCount = false := by
+  induction as with
+  | nil => simp [checkVariadic] at h
+  | cons a r ih =>
+    simp only [checkVariadic] at h
+    split at h
+    · exact ih h
+    · cases h; rfl
+
+theorem reflectCheck_class {σ : Sig} {as : List Val} {p : ReflectPanic} (h : reflectCheck σ as = some p) :
+    p.isCount = !arityFit σ as.length := by
+  rw [reflectCheck_eq] at h
+  unfold reflectCheck' at h
+  split at h
+  · next hlt =>
+    cases h
+    have : ¬ σ.fixed.length ≤ as.length := by omega
+    simp [ReflectPanic.isCount, arityFit, this]
+  · next hge =>
+    split at h
+    · next hm =>
+      cases h
+      simp only [Bool.and_eq_true, decide_eq_true_eq, Option.isNone_iff_eq_none] at hm
+      have : ¬ as.length ≤ σ.fixed.length := by omega
+      simp [ReflectPanic.isCount, arityFit, hm.1, this]
+    · next hm =>
+      have hfit : arityFit σ as.length = true := by
+        simp only [Bool.and_eq_true, decide_eq_true_eq, Option.isNone_iff_eq_none, not_and] at hm
+        cases hv : σ.variadic
+        · have := hm hv
+          simp [arityFit, hv]; omega
+        · simp [arityFit, hv]; omega
+      rw [hfit]
+      split at h
+      · next q hq => cases h; exact checkFixed_isType hq
+      · split at h
+        · exact checkVariadic_isType h
+        · cases h
+
+/-! ### the call -/
+
+theorem argsCheck_none (ctx : Bool) (mn mx : Int) (n : Nat) :
+    argsCheck ctx mn mx n = none ↔ mn ≤ (n : Int) ∧ (n : Int) ≤ mx := by
+  unfold argsCheck
+  by_cases h : (n : Int) < mn ∨ (n : Int) > mx
+  · rw [if_pos h]; exact ⟨fun e => (by cases e), fun e => (by omega)⟩
+  · rw [if_neg h]; exact ⟨fun _ => (by omega), fun _ => rfl⟩
+
+theorem isEntered_iff (reg : Reg) (as : List Val) (f : Callee) :
+    (invoke reg as f).isEntered = true ↔
+      argsCheck reg.sig.ctx reg.minArgs reg.maxArgs as.length = none ∧ reflectCheck reg.sig as = none := by
+  unfold invoke
+  simp only []
+  split
+  · next msg h => simp [Outcome.isEntered, h]
+  · next h =>
+    split
+    · next p hp => split <;> simp [Outcome.isEntered, hp]
+    · next hp => split <;> simp [Outcome.isEntered, h, hp]
+
+/-- once the two checks pass, the outcome is `entered` with the caller's arguments -/
+theorem invoke_entered {reg : Reg} {as : List Val} {f : Callee} (h : (invoke reg as f).isEntered = true) :
+    invoke reg as f =
+      match f as with
+      | .ret v err => .entered reg.sig.ctx as (adapt reg.sig.results v err).1 (adapt reg.sig.results v err).2
+      | .panicErr e => .entered reg.sig.ctx as .nil (some (.goError (String.ofList reg.names.fullName) e))
+      | .panicVal v => .entered reg.sig.ctx as .nil (some (.lispError v)) := by
+  obtain ⟨h1, h2⟩ := (isEntered_iff reg as f).1 h
+  unfold invoke
+  simp only [h1, h2]
+  cases f as <;> rfl
+
+/-- the count test of the code against the bounds of the contract -/
+theorem count_agrees {σ : Sig} {decl : List Int} {as : List Val} {mn mx : Int}
+    (hv : ValidDecl σ decl) (hb : selectBounds σ decl = .ok (mn, mx)) (hfit : arityFit σ as.length = true) :
+    argsCheck σ.ctx mn mx as.length = none ↔ countOk σ decl as.length = true := by
+  rw [selectBounds_valid hv] at hb
+  rw [argsCheck_none]
+  simp only [countOk, Bool.and_eq_true, decide_eq_true_eq]
+  simp only [arityFit, Bool.and_eq_true, decide_eq_true_eq, Bool.or_eq_true] at hfit
+  obtain ⟨hf1, hf2⟩ := hfit
+  rcases decl with _ | ⟨a, _ | ⟨b, _ | ⟨c, r⟩⟩⟩
+  · -- derived from the signature
+    cases hvar : σ.variadic with
+    | none =>
+      simp only [hvar, Option.isSome_none, Bool.false_eq_true, if_false, Except.ok.injEq, Prod.mk.injEq] at hb
+      obtain ⟨rfl, rfl⟩ := hb
+      simp [bounds, hvar]
+    | some e =>
+      simp only [hvar, Option.isSome_some, if_true, Except.ok.injEq, Prod.mk.injEq] at hb
+      obtain ⟨rfl, rfl⟩ := hb
+      simp only [bounds, hvar, Option.isSome_some, if_true, unlimited]
+      omega
+  · simp only [Except.ok.injEq, Prod.mk.injEq] at hb
+    obtain ⟨rfl, rfl⟩ := hb
+    simp [bounds, unlimited]
+  · simp only [Except.ok.injEq, Prod.mk.injEq] at hb
+    obtain ⟨rfl, rfl⟩ := hb
+    simp [bounds]
+  · simp [ValidDecl, validDecl] at hv
+
+/-! ### the contract theorems -/
+
+theorem binder_contract {ov : Option (List Char)} {rt : List Char} {σ : Sig} {decl : List Int}
+    {reg : Reg} (hreg : register ov rt σ decl = .ok reg) (hv : ValidDecl σ decl) (as : List Val) (f : Callee) :
+    (invoke reg as f).isEntered = true ↔ Admissible σ decl as := by
+  obtain ⟨hs, hb, _, _⟩ := register_ok hreg
+  rw [isEntered_iff, hs, reflectCheck_none]
+  unfold Admissible admissibleB
+  rw [Bool.and_eq_true]
+  constructor
+  · rintro ⟨h1, h2⟩
+    exact ⟨(count_agrees hv hb (argsFit_arityFit h2)).1 h1, h2⟩
+  · rintro ⟨h1, h2⟩
+    exact ⟨(count_agrees hv hb (argsFit_arityFit h2)).2 h1, h2⟩
+
+/-- … and a call that is not admissible gets the class of error the contract names -/
+theorem error_class {ov : Option (List Char)} {rt : List Char} {σ : Sig} {decl : List Int}
+    {reg : Reg} (hreg : register ov rt σ decl = .ok reg) (hv : ValidDecl σ decl) (as : List Val) (f : Callee) :
+    (expect σ decl as = .countError → ∃ e, invoke reg as f = .rejectedCount e ∧ ∀ g, e ≠ .raw g) ∧
+    (expect σ decl as = .typeError → ∃ e, invoke reg as f = .rejectedType e ∧ ∀ g, e ≠ .raw g) := by
+  obtain ⟨hs, hb, _, _⟩ := register_ok hreg
+  have hadm := binder_contract hreg hv as f
+  have hent := isEntered_iff reg as f
+  rw [hs] at hent
+  unfold expect
+  constructor
+  · intro he
+    split at he
+    · cases he
+    · next hna =>
+      split at he
+      · cases he
+      · next hc =>
+        -- the count is outside the bounds, or no parameter list of this length exists
+        unfold invoke
+        simp only [hs]
+        cases hac : argsCheck σ.ctx reg.minArgs reg.maxArgs as.length with
+        | some msg => exact ⟨_, rfl, fun g h => by cases h⟩
+        | none =>
+          cases hrc : reflectCheck σ as with
+          | none =>
+            exact absurd (hadm.1 (hent.2 ⟨hac, hrc⟩)) hna
+          | some p =>
+            have hcls := reflectCheck_class hrc
+            cases hfit : arityFit σ as.length with
+            | false =>
+              rw [hfit] at hcls
+              simp only [Bool.not_false] at hcls
+              simp only [hcls, if_true]
+              exact ⟨_, rfl, fun g h => by cases h⟩
+            | true =>
+              exfalso
+              apply hc
+              rw [Bool.and_eq_true]
+              exact ⟨(count_agrees hv hb hfit).1 hac, hfit⟩
+  · intro he
+    split at he
+    · cases he
+    · next hna =>
+      split at he
+      · next hc =>
+        rw [Bool.and_eq_true] at hc
+        obtain ⟨hcnt, hfit⟩ := hc
+        have hac := (count_agrees hv hb hfit).2 hcnt
+        unfold invoke
+        simp only [hs, hac]
+        cases hrc : reflectCheck σ as with
+        | none => exact absurd (hadm.1 (hent.2 ⟨hac, hrc⟩)) hna
+        | some p =>
+          have hcls := reflectCheck_class hrc
+          rw [hfit] at hcls
+          simp only [Bool.not_true] at hcls
+          simp only [hcls]
+          exact ⟨_, rfl, fun g h => by cases h⟩
+      · cases he
+
+theorem args_passed_verbatim {reg : Reg} {as : List Val} {f : Callee} {c : Bool} {seen : List Val} {r : Val}
+    {e : Option Err} (h : invoke reg as f = .entered c seen r e) : seen = as ∧ c = reg.sig.ctx := by
+  have hent : (invoke reg as f).isEntered = true := by rw [h]; rfl
+  rw [invoke_entered hent] at h
+  cases hf : f as <;> rw [hf] at h <;> simp only [Outcome.entered.injEq] at h <;> exact ⟨h.2.1.symm, h.1.symm⟩
+
+theorem result_mapping {reg : Reg} {as : List Val} {f : Callee} {v : Val} {err : Option GoErr}
+    (h : (invoke reg as f).isEntered = true) (hf : f as = .ret v err) :
+    (reg.sig.results = 0 → invoke reg as f = .entered reg.sig.ctx as .nil none) ∧
+    (reg.sig.results = 1 → invoke reg as f = .entered reg.sig.ctx as .nil (err.map .raw)) ∧
+    (reg.sig.results = 2 → invoke reg as f = .entered reg.sig.ctx as v (err.map .raw)) := by
+  rw [invoke_entered h, hf]
+  refine ⟨fun h0 => ?_, fun h1 => ?_, fun h2 => ?_⟩
+  · simp [h0, adapt]
+  · simp [h1, adapt]
+  · simp [h2, adapt]
+
+theorem panic_becomes_wrapping_error {reg : Reg} {as : List Val} {f : Callee}
+    (h : (invoke reg as f).isEntered = true) :
+    (∀ e, f as = .panicErr e →
+      ∃ er, invoke reg as f = .entered reg.sig.ctx as .nil (some er) ∧ er.wrapsErr e = true ∧ ∀ g, er ≠ .raw g) ∧
+    (∀ v, f as = .panicVal v → invoke reg as f = .entered reg.sig.ctx as .nil (some (.lispError v))) := by
+  rw [invoke_entered h]
+  constructor
+  · intro e hf
+    rw [hf]
+    exact ⟨_, rfl, by simp [Err.wrapsErr], fun g hg => by cases hg⟩
+  · intro v hf
+    rw [hf]
+
+theorem name_derivation {ov : Option (List Char)} {g : GoName} {σ : Sig} {decl : List Int} {reg : Reg}
+    (hg : g.WellFormed) (hreg : register ov g.runtime σ decl = .ok reg) :
+    reg.names.functionName = specName ov g := by
+  obtain ⟨_, _, _, hn⟩ := register_ok hreg
+  rw [deriveNames_runtime ov g hg] at hn
+  cases ov with
+  | none =>
+    simp only [Option.some.injEq] at hn
+    rw [← hn]
+    rfl
+  | some o =>
+    simp only at hn
+    split at hn
+    · split at hn
+      · cases hn
+      · simp only [Option.some.injEq] at hn
+        rw [← hn]
+        rfl
+    · simp only [Option.some.injEq] at hn
+      rw [← hn]
+      rfl
+
+theorem deriveNames_isSome {ov : Option (List Char)} {g : GoName} (hg : g.WellFormed) :
+    (deriveNames ov g.runtime).isSome = true := by
+  rw [deriveNames_runtime ov g hg]
+  cases ov with
+  | none => rfl
+  | some o =>
+    simp only
+    split
+    · next h0 =>
+      have h1 := (lastIndexDot_range (lower g.qual)).2
+      have : lastIndexDot (lower g.qual) ≤ (lower g.qual).length := by omega
+      simp [sliceTo, h0, this]
+    · rfl
+
+theorem registration_total {ov : Option (List Char)} {g : GoName} {σ : Sig} {decl : List Int}
+    (hg : g.WellFormed) (hv : ValidDecl σ decl) : ∃ reg, register ov g.runtime σ decl = .ok reg := by
+  have hn := deriveNames_isSome (ov := ov) hg
+  have hb := selectBounds_valid hv
+  have hr : ¬ σ.results > 2 := by
+    simp only [ValidDecl, validDecl, Bool.and_eq_true, decide_eq_true_eq] at hv
+    omega
+  unfold register
+  cases hd : deriveNames ov g.runtime with
+  | none => rw [hd] at hn; cases hn
+  | some names =>
+    simp only [hb, hr, if_false]
+    exact ⟨_, rfl⟩
 
 end LispModel.Proofs.Call
